@@ -10,6 +10,8 @@ Inductive expr : Type :=
  | Fma (a b c : expr)                 (* a.mul_add(b, c) = a*b + c with one rounding *)
  | Neg (a : expr)
  | Max (a b : expr)                   (* f64::max *)
+ | Min (a b : expr)                   (* f64::min *)
+ | Abs (a : expr)                     (* f64::abs *)
  | Ln (a : expr) | Exp (a : expr)     (* platform libm: oracle functions of the carrier *)
  | If (c : bexpr) (t e : expr)
 with bexpr : Type :=
@@ -21,7 +23,7 @@ with bexpr : Type :=
 Record Ops (T : Type) : Type := {
   o_lit : Z -> T;
   o_add : T -> T -> T; o_sub : T -> T -> T; o_mul : T -> T -> T; o_div : T -> T -> T;
-  o_fma : T -> T -> T -> T; o_neg : T -> T; o_max : T -> T -> T;
+  o_fma : T -> T -> T -> T; o_neg : T -> T; o_max : T -> T -> T; o_min : T -> T -> T; o_abs : T -> T;
   o_ln : T -> T; o_exp : T -> T;
   o_lt : T -> T -> bool; o_le : T -> T -> bool; o_eq : T -> T -> bool;
   o_absdiffeq : T -> T -> T -> bool;
@@ -29,7 +31,7 @@ Record Ops (T : Type) : Type := {
   o_default : T
 }.
 Arguments o_lit {T}. Arguments o_add {T}. Arguments o_sub {T}. Arguments o_mul {T}.
-Arguments o_div {T}. Arguments o_fma {T}. Arguments o_neg {T}. Arguments o_max {T}.
+Arguments o_div {T}. Arguments o_fma {T}. Arguments o_neg {T}. Arguments o_max {T}. Arguments o_min {T}. Arguments o_abs {T}.
 Arguments o_ln {T}. Arguments o_exp {T}. Arguments o_lt {T}. Arguments o_le {T}. Arguments o_eq {T}.
 Arguments o_absdiffeq {T}. Arguments o_releq {T}. Arguments o_default {T}.
 
@@ -46,6 +48,8 @@ Fixpoint eval (env : list T) (e : expr) {struct e} : T :=
   | Fma a b c => o_fma O (eval env a) (eval env b) (eval env c)
   | Neg a => o_neg O (eval env a)
   | Max a b => o_max O (eval env a) (eval env b)
+  | Min a b => o_min O (eval env a) (eval env b)
+  | Abs a => o_abs O (eval env a)
   | Ln a => o_ln O (eval env a)
   | Exp a => o_exp O (eval env a)
   | If c t e => if beval env c then eval env t else eval env e
@@ -70,9 +74,9 @@ End Eval.
 Fixpoint uses_libm (e : expr) : bool :=
   match e with
   | Var _ | Lit _ => false
-  | Add a b | Sub a b | Mul a b | Div a b | Max a b => uses_libm a || uses_libm b
+  | Add a b | Sub a b | Mul a b | Div a b | Max a b | Min a b => uses_libm a || uses_libm b
   | Fma a b c => uses_libm a || uses_libm b || uses_libm c
-  | Neg a => uses_libm a
+  | Neg a | Abs a => uses_libm a
   | Ln _ | Exp _ => true
   | If _ t e => true
   end.
